@@ -37,6 +37,8 @@ type ParsedInput struct {
 	Host    string
 	Port    uint16
 	HasPort bool
+	// Absolute: the host was written with a trailing dot (removed from Host)
+	Absolute bool
 }
 
 // ParseInput follows the documentation of Resolver.Resolve.
@@ -57,6 +59,11 @@ func ParseInput(name string) ParsedInput {
 				p.HasPort = true
 			}
 		}
+	}
+	// a fully qualified name may be written with its trailing dot: same name
+	if len(name) > 1 && strings.HasSuffix(name, ".") && net.ParseIP(name) == nil {
+		name = strings.TrimSuffix(name, ".")
+		p.Absolute = true
 	}
 	p.Host = name
 	return p
